@@ -90,8 +90,7 @@ def periodic_voltage_source(source: ccp.Component, w: float = 0, w_resolution: f
     phi = float(source.value['phi'])
     frequency_properties = fourier_series(periodic_function(wavetype)(period=2*np.pi/w0, amplitude=V, phase=phi))
     n = np.round(w/w0)
-    delta_n = np.abs(w/w0 - n)
-    if delta_n > w_resolution/w0:
+    if np.abs(w - n*w0) > w_resolution: # the distance to the harmonic itself: w/w0 carries the rounding of n, which exceeds a resolution given in rad/s at high frequencies
         return ntw.Branch(
             source.nodes[0],
             source.nodes[1],
@@ -155,8 +154,7 @@ def periodic_current_source(source: ccp.Component, w: float = 0, w_resolution: f
     phi = float(source.value['phi'])
     frequency_properties = fourier_series(periodic_function(wavetype)(period=2*np.pi/w0, amplitude=I, phase=phi))
     n = np.round(w/w0)
-    delta_n = np.abs(w/w0 - n)
-    if delta_n > w_resolution/w0:
+    if np.abs(w - n*w0) > w_resolution: # the distance to the harmonic itself: w/w0 carries the rounding of n, which exceeds a resolution given in rad/s at high frequencies
         return ntw.Branch(
             source.nodes[0],
             source.nodes[1],
